@@ -412,7 +412,12 @@ class _VersionIndependentUnmarshaller:
     # Since Python 3.4
     def t_interned(self, save_ref, bytes_for_s=False):
         strsize = unpack("<i", self.fp.read(4))[0]
-        interned = compat_str(self.fp.read(strsize))
+        interned = self.fp.read(strsize)
+        if self.version_tuple >= (3, 0) and PYTHON_VERSION_TRIPLE >= (3, 0):
+            # In Python 3 this is interned text, written like TYPE_UNICODE.
+            interned = interned.decode("utf-8", "surrogatepass")
+        else:
+            interned = compat_str(interned)
         self.internStrings.append(interned)
         return self.r_ref(interned, save_ref)
 
